@@ -87,6 +87,13 @@ theorem once_cells_stable (σ : Store) (μ : Val) (w : W) (cell : Nat) (r : List
   · intro l c; exact checkEv_keeps σ μ l c w cell r h
   · intro lg l fs; exact log_keeps σ μ lg l fs w cell r h
 
+/-- no emission ever reads an un-initialised once-cell: by the time `Check` has run, every cell whose fields an
+    accepting leaf emits is initialised; by the time `With` has run, every cell of the tree is. (So the default arm of
+    `cellPairs` in the model is unreachable.) -/
+theorem lazy_cells_initialised_before_read (σ : Store) (μ : Val) (l : Level) (c : Core) (fs : List Fld) (w : W) :
+    readsOk σ (checkEv σ μ l c w).snap l c = true ∧ allForced (withEv μ c fs w).snap c = true :=
+  ⟨checkEv_reads σ μ l c w, withEv_forces μ c fs w⟩
+
 /-- the logger name is the dot-joined sequence of the non-empty names along the path -/
 theorem path_name (segs : List (List UInt8)) :
     pathName [] segs = joinDots (segs.filter (· ≠ [])) := by
